@@ -315,8 +315,14 @@ func (p *Poly) MapToRing(s Sort) *Poly {
 	return r
 }
 
-func fromPolySubst(p *Poly, rec func(*Term) *Term) *Term {
+// fromPolySubst rebuilds p with rec applied to its atoms.  nz lists atoms (by key) known to be non-zero
+// residues: for those x^(M-1) = 1 (Fermat; M prime), so exponents are reduced modulo M-1.
+func fromPolySubst(p *Poly, rec func(*Term) *Term, nz map[string]bool) *Term {
 	changed := false
+	var m1 *big.Int
+	if md := modulusOf(p.sort); md != nil && len(nz) > 0 {
+		m1 = new(big.Int).Sub(md, big1)
+	}
 	res := mkRingConst(p.sort, big0)
 	type pend struct {
 		c *big.Int
@@ -329,6 +335,9 @@ func fromPolySubst(p *Poly, rec func(*Term) *Term) *Term {
 			if rec(f.atom) != f.atom {
 				changed = true
 			}
+			if m1 != nil && f.exp.Cmp(m1) >= 0 && nz[rec(f.atom).Key()] {
+				changed = true
+			}
 		}
 		items = append(items, pend{e.c, e.m})
 	}
@@ -338,7 +347,14 @@ func fromPolySubst(p *Poly, rec func(*Term) *Term) *Term {
 	for _, it := range items {
 		t := mkRingConst(p.sort, it.c)
 		for _, f := range it.m.f {
-			t = mkMul(t, mkPow(rec(f.atom), f.exp))
+			a, ex := rec(f.atom), f.exp
+			if m1 != nil && ex.Cmp(m1) >= 0 && nz[a.Key()] {
+				ex = new(big.Int).Mod(ex, m1)
+				if ex.Sign() == 0 {
+					continue
+				}
+			}
+			t = mkMul(t, mkPow(a, ex))
 		}
 		res = mkAdd(res, t)
 	}
